@@ -264,6 +264,10 @@ def _iterable(it):
             d = it[1][1]
             return ("fam", d[1], {"items": mk_tuple((d[2], d[3])), "keys": d[2], "values": d[3]}[it[1][2]])
         return (it[1][2], it[1][1]) if it[1][2] != "keys" else it[1][1]
+    # iterating map(f, xs) / safe_map(f, xs) is iterating [f(x) for x in xs] (f a plain function or bound method, applied symbolically)
+    if is_t(it, "call") and it[1] in (G("map"), G("jax.util.safe_map")) and len(it[2]) == 2 and not it[3] and (is_t(it[2][0], "attr") or is_t(it[2][0], "global")):
+        xs = _iterable(it[2][1])
+        return ("fam", xs, ("call", it[2][0], (mk_elem(xs),), ()))
     # xs[::-1] is reversed(xs)
     if is_t(it, "index") and it[2] == ("sliceobj", C(None), C(None), C(-1)):
         return ("reversed", _iterable(it[1]))
@@ -1291,7 +1295,7 @@ class _Ctx:
             f = f[1]
         # (f if c else g)(a if c else b) is (f(a) if c else g(b)): a call through a joined callee / receiver is the join of the calls
         rcv = f[1] if is_t(f, "attr") else f
-        if is_t(rcv, "phi") and "**" not in kwargs:
+        if is_t(rcv, "phi"):
             c = rcv[1]
             arms = []
             for pol in (True, False):
